@@ -441,7 +441,7 @@ namespace
         {
             Plan p;
             int cap = (int)r.range(2, 16);
-            p.cfg = {cap, (int64_t)r.below(2)};
+            p.cfg = {cap, (int64_t)r.below(3)}; // cfg[1]: 0 C sline inside struct readline, 1 igris::sline wrapper, 2 igris::readline (typed keys + linecpy)
             int n = (int)r.range(4, tier == THOROUGH ? 120 : 60);
             for (int i = 0; i < n; i++) p.ops.push_back({(int64_t)r.below(L_N), (int64_t)r.below(2 * cap + 2), (int64_t)r.below(95)});
             return p;
@@ -450,7 +450,59 @@ namespace
         {
             Result res;
             size_t cap = (size_t)mod(p.c(0) - 2, 30) + 2;
-            bool wrapper = mod(p.c(1), 2) != 0;
+            if (mod(p.c(1), 3) == 2)
+            {
+                // the C++ line editor on its own: printables, backspace and arrows are typed, linecpy reads the line out
+                std::unique_ptr<XReadline> xr(make_xreadline());
+                xr->init((unsigned)cap, 2);
+                std::string m;
+                size_t cur = 0;
+                bool exact = false;
+                for (auto &o : p.ops)
+                {
+                    int k = (int)mod(arg(o, 0), L_N);
+                    size_t n = (size_t)mod(arg(o, 1), 2 * cap + 2);
+                    char c = (char)(0x20 + mod(arg(o, 2), 95));
+                    switch (k)
+                    {
+                    case L_PUTCHAR:
+                    case L_NEWDATA:
+                        xr->key((unsigned char)c);
+                        if (m.size() + 1 < cap) { m.insert(m.begin() + cur, c); cur++; }
+                        break;
+                    case L_BACKSPACE:
+                        xr->key(0x08);
+                        if (cur > 0) { m.erase(cur - 1, 1); cur--; }
+                        break;
+                    case L_LEFT:
+                        xr->key(0x1B); xr->key(0x5B); xr->key(0x44);
+                        if (cur > 0) cur--;
+                        break;
+                    case L_RIGHT:
+                        xr->key(0x1B); xr->key(0x5B); xr->key(0x43);
+                        if (cur < m.size()) cur++;
+                        break;
+                    default:
+                    {
+                        size_t maxlen = n % (cap + 3) + 1;
+                        if (k == L_GETLINE) maxlen = m.size() + (size_t)mod(arg(o, 2), 3); // around the exact fit: len, len+1, len+2
+                        if (maxlen == 0) maxlen = 1;
+                        if (maxlen == m.size()) exact = true;
+                        std::unique_ptr<char[]> dst(new char[maxlen]);
+                        int rc = xr->linecpy(dst.get(), maxlen);
+                        size_t want = std::min(m.size(), maxlen - 1);
+                        if ((size_t)rc != want || dst[want] != 0 || memcmp(dst.get(), m.data(), want) != 0)
+                            violate("C15/linecpy", "igris::readline::linecpy(size=%zu) returned %d, expected %zu characters of '%s'", maxlen, rc, want, m.c_str());
+                        probe("linecpy");
+                        break;
+                    }
+                    }
+                    tr.ev("xrl op %d -> len %zu cur %zu", k, m.size(), cur);
+                }
+                res.nontrivial = exact;
+                return res;
+            }
+            bool wrapper = mod(p.c(1), 3) == 1;
             std::unique_ptr<char[]> buf(new char[cap]);
             struct ::sline csl;
             struct readline rl;
